@@ -47,6 +47,7 @@ type Engine struct {
 	GlobalGhosts map[string]string      // "$name" -> spec type
 	Guarded   []GuardDecl
 	Writers   []WritersDecl
+	GlobalFacts map[string]Expr
 }
 
 // Unit is one verification run of a function against its contract.
